@@ -125,6 +125,32 @@ def run(chk):
                               '%s dispatch dict at protocol %d differs from the id table: %r vs %r'
                               % (rc.__name__, t['v'], sorted(got.items())[:6], sorted(want.items())[:6]), {'entry': t})
         # known ids select exactly the class whose id it is (lookup)
+    # ---- the same Connection / context re-used across versions (connect() re-assigns protocol_version on the
+    #      long-lived context): the decoder table must follow the version in use, not an earlier one
+    by_key = {(t['v'], t['st']): t for t in tab if t['dir'] == 'clientbound' and t['sup']}
+    sup_versions = [v for v in mc.SUPPORTED_PROTOCOL_VERSIONS]
+    walks = [list(sup_versions), list(reversed(sup_versions))]
+    for _ in range(1 if chk.tier == 'quick' else 4):
+        w = list(sup_versions)
+        rng.shuffle(w)
+        walks.append(w)
+    for w in walks:
+        fc = FakeConn()
+        fc.context = ConnectionContext(protocol_version=w[0])
+        for v in w:
+            fc.context.protocol_version = v
+            for st, rc in reactors.items():
+                t = by_key[(v, st)]
+                want = {x['id']: x['cls'] for x in t['ids']}
+                if len(want) != len(t['ids']):
+                    continue
+                got = {i: c.__name__ for i, c in rc(fc).clientbound_packets.items()}
+                chk.traces += 1
+                if got != want:
+                    diff = sorted(set(got.items()) ^ set(want.items()))[:4]
+                    chk.violation('reactor-dict:reused-context:%s' % st,
+                                  '%s built on a context re-used across versions decodes protocol %d with another version\'s table: %r'
+                                  % (rc.__name__, v, diff), {'version': v, 'state': st})
     chk.sample({'v': tab[-8]['v'], 'st': tab[-8]['st'], 'dir': tab[-8]['dir'], 'ids': tab[-8]['ids'][:5]})
     play = [t for t in tab if t['v'] == 757 and t['st'] == 'play' and t['dir'] == 'clientbound'][0]
     chk.sample({'v': 757, 'st': 'play', 'dir': 'clientbound', 'n_classes': len(play['ids']), 'first': play['ids'][:4]})
